@@ -57,6 +57,16 @@ package gateway_test
 //       caller's cancellation must not reach admitted work)
 //                                              -> admitted-send-context-cancelled
 //
+// Drain-storm family (case index >= 100000): the window between submit()'s
+// admission check and the accepted-work ownership hand-over contains no call
+// into anything the harness can supply (core's own session.ID(), the queue
+// mutex, a shard CAS; observers run before/after it), so a submitter cannot be
+// parked there deterministically through public/testkit seams. Instead whole
+// rounds of fresh servers are stormed concurrently on an oversubscribed
+// GOMAXPROCS with the drainers released by the same gate as the feeders (see
+// c28GenStorm). Same oracles; (j) is vacuous there because storm feeders do
+// not tick the clock.
+//
 // Deliberately NOT asserted (counted only): sessions that closed (by the
 // harness, queue-full/after-fence rejection, injected batch fault, or as
 // collateral of another session's failed sendack write in a mixed batch) may
@@ -72,6 +82,7 @@ import (
 	"fmt"
 	"io"
 	"math/rand/v2"
+	"os"
 	"runtime"
 	"sort"
 	"strconv"
@@ -95,8 +106,9 @@ import (
 )
 
 const (
-	c28Listener = "c28-listener"
-	c28Watchdog = 150 * time.Second
+	c28StormBase = 100000 // case indices of the drain-storm family
+	c28Listener  = "c28-listener"
+	c28Watchdog  = 150 * time.Second
 )
 
 const (
@@ -106,9 +118,12 @@ const (
 	c28ScStopMid
 	c28ScConcurrentDrainers
 	c28ScCount
+	// c28ScStorm is the dedicated "drain storm" family (not part of the
+	// round-robin over the regular scenarios).
+	c28ScStorm = c28ScCount
 )
 
-var c28ScenarioNames = [...]string{"drain-after", "drain-mid", "expired-then-second", "stop-mid", "concurrent-drainers"}
+var c28ScenarioNames = [...]string{"drain-after", "drain-mid", "expired-then-second", "stop-mid", "concurrent-drainers", "drain-storm"}
 
 // ---------------------------------------------------------------- plan
 
@@ -152,12 +167,25 @@ type c28Cfg struct {
 	totalWrites    int
 	totalSends     int
 	sessions       []*c28SessPlan
+	// drain-storm family only
+	storm     bool
+	drainers  int
+	procs     int
+	sub       int  // index of this server inside its storm round
+	gateDrain bool // drainers are released by the same gate as the feeders
+	yields    int  // scheduler yields each drainer performs before calling DrainSends
 }
 
 func (c *c28Cfg) desc() string {
 	return fmt.Sprintf("%s sess=%d workers=%d cap=%d tight=%v paced=%v batch=%d/%s/%dB lat=%d err=%d%% fault=%d/1000 close=%d%% sends=%d trigger=%d/%d rel=%s",
 		c28ScenarioNames[c.scenario], c.nSess, c.workers, c.capacity, c.tight, c.allPaced, c.batchRecs, c.batchWait, c.batchBytes,
-		c.latMode, c.itemErrPct, c.faultPermille, c.closePct, c.totalSends, c.trigger, c.totalWrites, c.releaseTimeout)
+		c.latMode, c.itemErrPct, c.faultPermille, c.closePct, c.totalSends, c.trigger, c.totalWrites, c.releaseTimeout) +
+		func() string {
+			if !c.storm {
+				return ""
+			}
+			return fmt.Sprintf(" sub=%d drainers=%d procs=%d gate=%v yields=%d", c.sub, c.drainers, c.procs, c.gateDrain, c.yields)
+		}()
 }
 
 // replica of core.asyncSendLogicalShardCount / asyncSendShardCapacity; only
@@ -323,6 +351,70 @@ func c28GenCfg(r *verifkit.Run, ci int) *c28Cfg {
 		}
 		c.trigger = lo + rng.IntN(hi-lo+1)
 	}
+	return c
+}
+
+// c28GenStorm builds one server of a "drain storm" round. A round runs 4-8
+// fresh servers concurrently on GOMAXPROCS = 1x/2x/4x NumCPU (>= 8); each
+// server has 16-64 sessions (64-512 feeders per round) whose feeders, released
+// together by a start gate, blast single-frame writes in tight loops (no
+// pacing, no per-write clock ticks, no pushers) at a 1-2 worker runtime with a
+// tiny or moderate queue, while 2-4 goroutines call DrainSends - released by
+// the same gate (3 of 4 servers, after 0-256 scheduler yields) or at a PRNG
+// point in the middle of the writes. The aim is to have
+// submitters between the admission check and their ownership hand-over at the
+// instant the drain closes admission and finds the accepted-work count at zero.
+// Feeders deliberately perform NO synchronising operation the drain caller
+// later reads (no shared clock ticks), so the race detector sees submit() and
+// drain() exactly as ordered by the code under test.
+func c28GenStorm(r *verifkit.Run, ci, sub, procs int) *c28Cfg {
+	rng := r.Rand(uint64(ci), uint64(sub), 0x5707)
+	c := &c28Cfg{scenario: c28ScStorm, storm: true, sub: sub, procs: procs}
+	c.nSess = 16 + rng.IntN(49)
+	c.workers = c28Pick(rng, 1, 1, 1, 2)
+	c.capacity = c28Pick(rng, 2, 4, 8, 16, 64, 256, 1<<17)
+	c.tight = c.capacity < 1<<17
+	c.shards, c.shardCap = c28Shards(c.workers, c.capacity)
+	c.batchRecs = c28Pick(rng, 1, 4, 128)
+	c.batchWait = c28Pick(rng, -1, -1, 50*time.Microsecond)
+	c.latMode = c28Pick(rng, 0, 0, 0, 1)
+	c.releaseTimeout = 60 * time.Second
+	c.drainers = 2 + rng.IntN(3)
+	// Most storm servers release the drainers together with the feeders: every
+	// feeder's first SEND passes the admission check at about the same instant
+	// and piles up behind the queue lock while the drain closes admission and
+	// the worker empties the tiny queue. The rest drain at a PRNG point mid-run.
+	c.gateDrain = rng.IntN(4) != 0
+	c.yields = c28Pick(rng, 0, 0, 1, 4, 16, 64)
+	perSess := c28Pick(rng, 3, 6, 12, 24)
+	if c.gateDrain {
+		perSess = c28Pick(rng, 1, 2, 3)
+	}
+	enc := codec.New()
+	ping, _ := enc.EncodeFrame(&frame.PingPacket{}, frame.LatestVersion)
+	pingPct := c28Pick(rng, 0, 20, 60)
+	for s := 0; s < c.nSess; s++ {
+		srng := r.Rand(uint64(ci), uint64(sub), uint64(s+1), 0x5707)
+		p := &c28SessPlan{idx: s, connID: uint64(s + 1), uid: "u" + strconv.Itoa(s)}
+		p.nSends = 1 + srng.IntN(perSess)
+		for q := uint64(1); q <= uint64(p.nSends); q++ {
+			for srng.IntN(100) < pingPct {
+				p.writes = append(p.writes, c28Write{data: ping, pings: 1})
+			}
+			b, err := enc.EncodeFrame(&frame.SendPacket{
+				ClientSeq: q, ClientMsgNo: c28MsgNo(s, q), ChannelID: "g0", ChannelType: frame.ChannelTypeGroup,
+				Payload: []byte{byte('a' + q%26)},
+			}, frame.LatestVersion)
+			if err != nil {
+				panic(err)
+			}
+			p.writes = append(p.writes, c28Write{data: b, sends: []uint64{q}})
+		}
+		c.totalWrites += len(p.writes)
+		c.totalSends += p.nSends
+		c.sessions = append(c.sessions, p)
+	}
+	c.trigger = c.totalWrites/5 + rng.IntN(c.totalWrites*3/5+1)
 	return c
 }
 
@@ -627,6 +719,7 @@ type c28Sess struct {
 	pacedWaits     int
 	pacedTimeouts  int
 	harnessClosed  bool
+	straddled      int // storm: SEND writes begun before and finished after the drain call was announced
 	connackSeen    bool
 	ready          chan struct{}
 	// pusher-owned, read after join
@@ -657,6 +750,8 @@ type c28Case struct {
 	obs *c28Observer
 	ss  []*c28Sess
 
+	startGate      chan struct{}  // storm: released when every feeder finished CONNECT
+	connected      sync.WaitGroup // storm
 	writeCount     atomic.Int64
 	triggerOnce    sync.Once
 	triggerCh      chan struct{}
@@ -693,6 +788,49 @@ func (cs *c28Case) setInconclusive(s string) {
 
 func (cs *c28Case) feed(s *c28Sess) {
 	defer close(s.ready)
+	if cs.cfg.storm {
+		arrived := false
+		arrive := func() {
+			if !arrived {
+				arrived = true
+				cs.connected.Done()
+			}
+		}
+		defer arrive()
+		cs.feedConnect(s)
+		arrive()
+		if !s.connackSeen {
+			return
+		}
+		<-cs.startGate
+		for wi := range s.plan.writes {
+			w := &s.plan.writes[wi]
+			if c28ConnClosed(s.conn) {
+				break
+			}
+			// no clock ticks here (see c28GenStorm); 1 = "delivered, before any fence"
+			for _, q := range w.sends {
+				s.sendT0[q], s.sendT1[q] = 1, 1
+			}
+			before := cs.fenceRequested.Load()
+			_ = s.conn.EmitData(w.data)
+			if len(w.sends) > 0 && !before && cs.fenceRequested.Load() {
+				s.straddled++
+			}
+			s.delivered += len(w.sends)
+			s.pings += w.pings
+			cs.bumpWrites()
+		}
+		return
+	}
+	cs.feedConnect(s)
+	if !s.connackSeen {
+		return
+	}
+	cs.feedWrites(s)
+}
+
+func (cs *c28Case) feedConnect(s *c28Sess) {
 	connect, err := codec.New().EncodeFrame(&frame.ConnectPacket{
 		Version: frame.LatestVersion, UID: s.plan.uid, DeviceID: "d" + s.plan.uid,
 		DeviceFlag: frame.APP, ClientTimestamp: 1,
@@ -714,7 +852,9 @@ func (cs *c28Case) feed(s *c28Sess) {
 	}
 	s.connackSeen = true
 	s.ready <- struct{}{}
+}
 
+func (cs *c28Case) feedWrites(s *c28Sess) {
 	sent := 0
 	for wi := range s.plan.writes {
 		w := &s.plan.writes[wi]
@@ -837,11 +977,13 @@ func (cs *c28Case) snapshot() c28Snap {
 // it reads the gateway's own admission counter, then the usecase counter, then
 // snapshots every connection.
 func (cs *c28Case) drain(kind string, ctx context.Context) (isNil bool) {
-	cs.evMu.Lock()
-	if len(cs.events) == 0 {
-		cs.fullBeforeFence = cs.obs.full.Load()
+	if !cs.cfg.storm {
+		cs.evMu.Lock()
+		if len(cs.events) == 0 {
+			cs.fullBeforeFence = cs.obs.full.Load()
+		}
+		cs.evMu.Unlock()
 	}
-	cs.evMu.Unlock()
 	cs.fenceRequested.Store(true)
 	c0 := cs.clk.tick()
 	err := cs.srv.DrainSends(ctx)
@@ -873,9 +1015,13 @@ func (cs *c28Case) drain(kind string, ctx context.Context) (isNil bool) {
 }
 
 func (cs *c28Case) control(feedersDone <-chan struct{}) {
-	select {
-	case <-cs.triggerCh:
-	case <-feedersDone:
+	if cs.cfg.storm && cs.cfg.gateDrain {
+		<-cs.startGate
+	} else {
+		select {
+		case <-cs.triggerCh:
+		case <-feedersDone:
+		}
 	}
 	switch cs.cfg.scenario {
 	case c28ScDrainAfter:
@@ -914,6 +1060,21 @@ func (cs *c28Case) control(feedersDone <-chan struct{}) {
 		cs.events = append(cs.events, c28DrainEv{kind: "stop", c0: c0, c1: c1})
 		cs.stopped = true
 		cs.evMu.Unlock()
+	case c28ScStorm:
+		var wg sync.WaitGroup
+		for g := 0; g < cs.cfg.drainers; g++ {
+			wg.Add(1)
+			go func(g int) {
+				defer wg.Done()
+				ctx, cancel := context.WithTimeout(context.Background(), c28Watchdog)
+				for y := 0; y < cs.cfg.yields*(g+1); y++ {
+					runtime.Gosched()
+				}
+				cs.drain("storm-"+strconv.Itoa(g), ctx)
+				cancel()
+			}(g)
+		}
+		wg.Wait()
 	case c28ScConcurrentDrainers:
 		var wg sync.WaitGroup
 		for g := 0; g < 3; g++ {
@@ -943,7 +1104,12 @@ var c28Phase [5]time.Duration // informational wall-clock phase split of the las
 
 func c28RunCase(r *verifkit.Run, ci int, cfg *c28Cfg) (abort bool) {
 	tPhase := time.Now()
-	mark := func(i int) { c28Phase[i] = time.Since(tPhase); tPhase = time.Now() }
+	mark := func(i int) {
+		if !cfg.storm { // storm servers run concurrently
+			c28Phase[i] = time.Since(tPhase)
+			tPhase = time.Now()
+		}
+	}
 	cs := &c28Case{r: r, ci: ci, cfg: cfg, clk: &c28Clock{}, triggerCh: make(chan struct{})}
 	seed := c28Mix(r.Seed ^ c28Mix(uint64(ci)))
 	cs.uc = &c28Usecase{clk: cs.clk, seed: seed, itemErrPct: cfg.itemErrPct, faultPermille: cfg.faultPermille,
@@ -1002,6 +1168,11 @@ func c28RunCase(r *verifkit.Run, ci int, cfg *c28Cfg) (abort bool) {
 	mark(0)
 
 	var feeders, pushers sync.WaitGroup
+	if cfg.storm {
+		cs.startGate = make(chan struct{})
+		cs.connected.Add(len(cs.ss))
+		go func() { cs.connected.Wait(); close(cs.startGate) }()
+	}
 	for i, s := range cs.ss {
 		feeders.Add(1)
 		go func(s *c28Sess) { defer feeders.Done(); cs.feed(s) }(s)
@@ -1100,6 +1271,30 @@ func (cs *c28Case) analyse(snapF c28Snap, finalWrites [][][]byte) {
 	r, cfg := cs.r, cs.cfg
 	r.Eval(1)
 	r.Count("cases."+c28ScenarioNames[cfg.scenario], 1)
+	if cfg.storm {
+		straddled, nilDrains := 0, 0
+		for _, s := range cs.ss {
+			straddled += s.straddled
+		}
+		for _, e := range cs.events {
+			if e.kind != "final" {
+				r.Count("storm.drain_calls", 1)
+				if e.isNil {
+					nilDrains++
+				}
+			}
+		}
+		r.Count("storm.drain_calls_returned_nil", nilDrains)
+		r.Count("storm.send_submits_in_flight_at_drain_call", straddled)
+		if straddled > 0 {
+			r.Count("storm.cases_with_submit_in_flight_at_drain_call", 1)
+		}
+		if straddled > 0 {
+			r.Nontrivial(fmt.Sprintf("storm|w%d|cap%d|b%d|n%d|p%d|d%d", cfg.workers, cfg.capacity, cfg.batchRecs, cfg.nSess/32, cfg.procs, cfg.drainers))
+		}
+		r.Count("storm.rejected_submits(queue full or fence)", int(cs.obs.full.Load()))
+		r.Max("storm.max_sessions", cfg.nSess)
+	}
 
 	var fence int64 = -1     // earliest return of any DrainSends/Stop call
 	var firstCall int64 = -1 // earliest drain/stop call
@@ -1413,21 +1608,78 @@ func (cs *c28Case) analyse(snapF c28Snap, finalWrites [][][]byte) {
 func TestVerifC28(t *testing.T) {
 	r := verifkit.Start(t, "C28", "main")
 	defer r.Finish()
-	r.SetRule("Case = PRNG(seed, index): scenario (drain after / mid-run / expired-ctx then second call / Stop mid-run / 3 concurrent drainers), 1-32 wkproto sessions over the fake transport with real CONNECT, per session 1-500 SENDs in bursts (1-64 frames per transport write, writes split at random byte offsets, interleaved PINGs, harness RECV pushes through the presence session handle), workers 1-8, queue capacity ample or 4-512 (clients blasting or window-paced), batch limits 1-128 records / 96B-default bytes, fake usecase latency 0-8ms, per-item errors 0-30%, batch faults 0-6% (whole-batch error, short/duplicate/out-of-range results), out-of-order result emission, harness peer-closes. Non-trivial = some session with >=50 SENDs delivered before the first DrainSends/Stop call and dispatched after it, or >=50 SENDs on a session while the queue was saturated (admission rejected before any fence, or a paced client blocked on a full window). Distinct = (scenario, workers, capacity mode, batch size, session bucket, faults, closes, latency mode, overlap bucket).")
+	r.SetRule("Case = PRNG(seed, index): scenario (drain after / mid-run / expired-ctx then second call / Stop mid-run / 3 concurrent drainers), 1-32 wkproto sessions over the fake transport with real CONNECT, per session 1-500 SENDs in bursts (1-64 frames per transport write, writes split at random byte offsets, interleaved PINGs, harness RECV pushes through the presence session handle), workers 1-8, queue capacity ample or 4-512 (clients blasting or window-paced), batch limits 1-128 records / 96B-default bytes, fake usecase latency 0-8ms, per-item errors 0-30%, batch faults 0-6% (whole-batch error, short/duplicate/out-of-range results), out-of-order result emission, harness peer-closes. Non-trivial = some session with >=50 SENDs delivered before the first DrainSends/Stop call and dispatched after it, or >=50 SENDs on a session while the queue was saturated (admission rejected before any fence, or a paced client blocked on a full window). Distinct = (scenario, workers, capacity mode, batch size, session bucket, faults, closes, latency mode, overlap bucket). Plus the 'drain-storm' family (case index >= 100000 = one round of 4-8 fresh servers run concurrently on oversubscribed GOMAXPROCS; per server 16-64 sessions blasting single-frame SEND writes at 1-2 workers with queue capacity 2..ample, 2-4 concurrent DrainSends callers released with the feeders or mid-run); a storm server is non-trivial when >=1 SEND write began before and ended after the drain call was announced; distinct = (workers, capacity, batch, session bucket, GOMAXPROCS, drainers).")
 	r.Assume("Bytes of one connection are delivered by one goroutine (transport callback contract), which defines SEND arrival order; RECV issue order is one pusher goroutine per session.")
 	r.Assume("A session counts as 'stayed open' only if its connection was never closed when checked at a quiescent point (feeders/pushers joined, DrainSends returned nil); every SEND delivered on such a session was accepted because a rejected SEND closes the session.")
 	r.Assume("The gateway's own AsyncSendAdmissionObserver 'ok' events are trusted as the count of admitted SENDs for the global drain-completeness check.")
 
-	n := r.N(60, 1000)
-	for i := 0; i < n; i++ {
+	nReg, nStorm := r.N(45, 2000), r.N(30, 800)                             // regular cases, storm rounds
+	if v, err := strconv.Atoi(os.Getenv("VERIF_C28_REGULAR")); err == nil { // tuning knob only
+		nReg = v
+	}
+	if v, err := strconv.Atoi(os.Getenv("VERIF_C28_STORM")); err == nil { // tuning knob only
+		nStorm = v
+	}
+	prevProcs := runtime.GOMAXPROCS(0)
+	defer runtime.GOMAXPROCS(prevProcs)
+	// storm cases (index >= c28StormBase) are interleaved with the regular ones
+	type c28Slot struct {
+		idx   int
+		storm bool
+	}
+	var order []c28Slot
+	si, acc := 0, 0
+	for i := 0; i < nReg; i++ {
+		order = append(order, c28Slot{i, false})
+		for acc += nStorm; acc >= nReg && si < nStorm; acc -= nReg {
+			order = append(order, c28Slot{c28StormBase + si, true})
+			si++
+		}
+	}
+	for ; si < nStorm; si++ {
+		order = append(order, c28Slot{c28StormBase + si, true})
+	}
+	for _, slot := range order {
+		i := slot.idx
 		if r.Skip(i) {
 			continue
 		}
+		if slot.storm {
+			// one storm round = several fresh servers stormed concurrently
+			rrng := r.Rand(uint64(i), 0x5708)
+			procs := max(8, runtime.NumCPU()*c28Pick(rrng, 1, 2, 4))
+			k := 4 + rrng.IntN(5)
+			r.BeginCase(i, fmt.Sprintf("drain-storm round: %d servers, GOMAXPROCS=%d", k, procs))
+			runtime.GOMAXPROCS(procs)
+			var wg sync.WaitGroup
+			var aborted atomic.Bool
+			for sub := 0; sub < k; sub++ {
+				cfg := c28GenStorm(r, i, sub, procs)
+				wg.Add(1)
+				go func() {
+					defer wg.Done()
+					if c28RunCase(r, i, cfg) {
+						aborted.Store(true)
+					}
+				}()
+			}
+			wg.Wait()
+			r.Count("storm.rounds", 1)
+			if aborted.Load() {
+				return
+			}
+			continue
+		}
 		cfg := c28GenCfg(r, i)
+		runtime.GOMAXPROCS(prevProcs)
 		r.BeginCase(i, cfg.desc())
 		started := time.Now()
+		nv := r.NumViolations()
 		if c28RunCase(r, i, cfg) {
 			return
+		}
+		if r.NumViolations() > nv {
+			t.Logf("violating case %d: %s", i, cfg.desc())
 		}
 		el := time.Since(started)
 		r.Max("slowest_case_ms(wall, informational)", int(el.Milliseconds()))
